@@ -26,7 +26,12 @@ from soprano.nmr.utils import _dip_constant, _dip_tensor
 from soprano.properties import AtomsProperty
 from soprano.rnd import Random
 from soprano.selection import AtomSelection
-from soprano.utils import minimum_periodic, minimum_supcell, supcell_gridgen
+from soprano.utils import (
+    _reduce_to_cell,
+    minimum_periodic,
+    minimum_supcell,
+    supcell_gridgen,
+)
 
 
 class DipolarCoupling(AtomsProperty):
@@ -417,7 +422,10 @@ class DipolarRSS(AtomsProperty):
             else:
                 rij = pos[np.where(elems == el)]
                 gj = gammas[i]
-            rij = rij[None, :, :] + scell[:, None, :] - pos[i, None, None]
+            # Use the copies closest to atom i, so that the supercell built
+            # around the origin holds every image within the cutoff
+            rij, _ = _reduce_to_cell(rij - pos[i], s.get_cell(), [True] * 3)
+            rij = rij[None, :, :] + scell[:, None, :]
             Rij = np.linalg.norm(rij.reshape((-1, 3)), axis=-1)
             # Valid indices?
             ij = np.where((Rij > 0) & (Rij <= cutoff))
